@@ -436,6 +436,11 @@ theorem startOp_phase (sh : Shared) (th : Thread) (op : Op) (hidle : th.pc = .id
       · exact .inl (by simp only [Thread.setIter, hidle])
       · exact .inl hidle
     · exact .inl hidle
+  · split
+    · split
+      · exact .inr rfl
+      · exact .inl hidle
+    · exact .inl hidle
 
 /-! ### the transition lemma -/
 
